@@ -58,7 +58,7 @@ func (ilvEngine) NumCases(tier string) int {
 	case "race":
 		quick, thorough = 1000, 40000
 	case "elpscheck":
-		quick, thorough = 320, 12000
+		quick, thorough = 320, 4800
 	}
 	if tier == "thorough" {
 		return thorough
@@ -708,7 +708,7 @@ func (ilvEngine) Run(ci any, st *Stats) *Violation {
 	}
 	// scheduler (this goroutine)
 	var scratch *World
-	events, switches := 0, 0
+	events, switches, forcedGCs := 0, 0, 0
 	last := -1
 	var fpViol *Violation
 	schedHash := NewHash()
@@ -743,7 +743,12 @@ func (ilvEngine) Run(ci any, st *Stats) *Violation {
 					junk = append(junk, make([]byte, 64+events%512))
 				}
 				_ = junk
-				if events%(c.Perturb*4) == 0 {
+				// a bounded number of forced collections per case: in the
+				// checked (elpscheck) build the heap of a long-lived worker
+				// process grows, and a case with thousands of scheduling
+				// events would otherwise spend minutes collecting
+				if events%(c.Perturb*4) == 0 && forcedGCs < 8 {
+					forcedGCs++
 					runtime.GC()
 				}
 				st.Inc("perturbations")
